@@ -48,6 +48,10 @@ def _constant_expr(node):
         return _constant_expr(node.operand)
     if isinstance(node, (ast.Name, ast.Attribute)):
         return dotted(node) is not None
+    if isinstance(node, ast.Call) and not node.keywords and dotted(node.func) is not None and \
+            dotted(node.func).split('.')[-1] in ('sqrt', 'deg2rad', 'rad2deg', 'radians', 'degrees', 'float', 'int', 'abs') and \
+            dotted(node.func).split('.')[0] in ('np', 'numpy', 'math', 'float', 'int', 'abs'):
+        return all(_constant_expr(a) for a in node.args)      # e.g. _SQRT3 = np.sqrt(3)
     return False
 
 
